@@ -241,6 +241,7 @@ func addrStaysLocal(v ssa.Value, seen map[ssa.Value]bool) bool {
 type retRec struct {
 	st   *State
 	vals []*Val
+	pos  string
 }
 
 func NewEnc(p *Program, top *ssa.Function) *Enc {
@@ -469,7 +470,9 @@ func (e *Enc) wellFormed(v *smt.Term, t types.Type, st *State) *smt.Term {
 func (e *Enc) wellFormedAt(v *smt.Term, t types.Type, st *State, hn string, from *smt.Term) *smt.Term {
 	cur := e.wellFormedB(v, t, st, st.Alloc)
 	if hn != "" && e.Alloc0 != nil && from != nil {
-		if _, written := st.Heaps[hn]; !written {
+		// "absent from Heaps" means "untouched since function entry" only while no modifies-* havoc has happened
+		// (st.Gen == nil); after one, an absent heap stands for the unconstrained heap of that generation
+		if _, written := st.Heaps[hn]; !written && st.Gen == nil {
 			pre := e.wellFormedB(v, t, st, e.Alloc0)
 			if pre == cur {
 				return cur
